@@ -20,92 +20,55 @@ def fstring_parts(js: ast.JoinedStr):
     return out
 
 
+REF_BLOCK = {
+    "encode": """
+def encode(self):
+    data_length = len(self.data)
+    struct_args = (self.header.length + data_length, self.header.encode(), self.data)
+    if self.checksum_format != "":
+        struct_args += (self.checksum,)
+    return struct.pack(f">{self.length_format}{self.header.length}s{data_length}s{self.checksum_format}", *struct_args)
+""",
+    "decode": """
+def decode(cls, data):
+    data_length = struct.unpack_from(f">{cls.length_format}", data)[0] - cls.header_type.length
+    data_fields = struct.unpack(f">{cls.length_format}{cls.header_type.length}s{data_length}s{cls.checksum_format}", data)
+    header = cls.header_type.decode(data_fields[1])
+    obj = cls(header, data_fields[2])
+    if cls.checksum_format != "" and obj.checksum != data_fields[3]:
+        return None
+    return obj
+""",
+    "checksum": """
+def checksum(self):
+    if self.checksum_format == "":
+        return 0
+    calculated_checksum = 0
+    for data_byte in self.header.encode() + self.data:
+        calculated_checksum += data_byte
+    return calculated_checksum
+""",
+}
+
+
 def check_block_encode(ctx, rule):
-    repo = ctx.repo
-    f = repo.method("Block", "encode", inherited=False)
-    ctx.touch(f)
-    q = f.qualname
-    packs = [c for c in calls_in(f.node) if call_name(c) == "struct.pack"]
-    ctx.require(len(packs) == 1 and isinstance(packs[0].args[0], ast.JoinedStr), f"{q}: struct.pack with an f-string format not found - unknown framing idiom")
-    parts = fstring_parts(packs[0].args[0])
-    # data length variable
-    dl = {t.id: norm(s.value) for s in rules.func_stmts(f.node) if isinstance(s, ast.Assign) for t in s.targets if isinstance(t, ast.Name)}
-    dlen_vars = {k for k, v in dl.items() if v == "len(self.data)"} | {"len(self.data)"}
-    want = [("lit", ">"), ("expr", "self.length_format"), ("expr", "self.header.length"), ("lit", "s"), ("expr", "DLEN"), ("lit", "s"), ("expr", "self.checksum_format")]
-    got = [(k, "DLEN" if (k == "expr" and v in dlen_vars) else v) for k, v in parts]
-    ok = got == want
-    ctx.ob(rule, q, ok, "frame format is big-endian: length field, header of header.length bytes, len(data) data bytes, checksum field" if ok else
-           f"frame format pieces {got} differ from (>, length_format, header.length s, len(data) s, checksum_format)", key="format", where=f.where)
-    # arguments: tuple (header.length + data_length, header.encode(), data) [+ checksum]
-    targs = None
-    for s in rules.func_stmts(f.node):
-        if isinstance(s, (ast.Assign, ast.AnnAssign)) and isinstance(s.value, ast.Tuple) and any(isinstance(t, ast.Name) and t.id == "struct_args" for t in rules.assigned_targets(s)):
-            targs = s.value
-    ctx.require(targs is not None and len(packs[0].args) == 2 and isinstance(packs[0].args[1], ast.Starred), f"{q}: struct_args tuple not found")
-    a = [norm(e) for e in targs.elts]
-    a = [x.replace(next(iter(dlen_vars - {"len(self.data)"}), "len(self.data)"), "DLEN").replace("len(self.data)", "DLEN") for x in a]
-    ok = len(a) == 3 and a[0] in ("self.header.length + DLEN", "DLEN + self.header.length") and a[1] == "self.header.encode()" and a[2] == "self.data"
-    ctx.ob(rule, q, ok, "length field = header.length + len(data); then the encoded header; then the data" if ok else f"frame arguments {a} are not (header.length + len(data), header.encode(), data)", key="args", where=f.where)
-    cfg = cfg_of(f.node)
-    add = [n for n in cfg.real_nodes() if isinstance(n.ast, ast.AugAssign) and norm(n.ast.target) == "struct_args"]
-    ok = len(add) == 1 and norm(add[0].ast.value) == "(self.checksum,)" and (norm(cfg.dominating_conditions(add[0])[0][0]), cfg.dominating_conditions(add[0])[0][1]) == ("self.checksum_format != ''", True) if add and cfg.dominating_conditions(add[0]) else False
-    ctx.ob(rule, q, ok, "the checksum is appended iff the block type has a checksum field" if ok else "the checksum argument is not appended exactly when checksum_format is non-empty", key="checksum-arg", where=f.where)
+    from . import _codec
+
+    f = ctx.repo.method("Block", "encode", inherited=False)
+    _codec.agree(ctx, rule, f, REF_BLOCK["encode"], {
+        "returns": "the frame is big-endian: length field = header.length + len(data), the encoded header, the data, and the checksum iff the block type has a checksum field",
+    }, key_prefix="frame ")
 
 
 def check_block_decode(ctx, rule, with_checksum=True):
-    repo = ctx.repo
-    f = repo.method("Block", "decode", inherited=False)
-    ctx.touch(f)
-    q = f.qualname
-    cfg = cfg_of(f.node)
-    uf = [c for c in calls_in(f.node) if call_name(c) == "struct.unpack_from"]
-    up = [c for c in calls_in(f.node) if call_name(c) == "struct.unpack"]
-    ctx.require(len(uf) == 1 and len(up) == 1, f"{q}: unpack_from/unpack pair not found - unknown framing idiom")
-    ok = isinstance(uf[0].args[0], ast.JoinedStr) and fstring_parts(uf[0].args[0]) == [("lit", ">"), ("expr", "cls.length_format")]
-    ctx.ob(rule, q, ok, "the length field is read big-endian with the block type's length format" if ok else "the length field is not read as '>' + length_format", key="len-format", where=f.where)
-    dl = None
-    for s in rules.func_stmts(f.node):
-        if isinstance(s, ast.Assign) and uf[0] in calls_in(s.value):
-            dl = (s.targets[0].id, norm(s.value))
-    ok = dl is not None and dl[1].endswith("[0] - cls.header_type.length")
-    ctx.ob(rule, q, ok, "data length = length field - header length" if ok else f"data length is computed as {dl}", key="data-length", where=f.where)
-    if dl:
-        parts = fstring_parts(up[0].args[0]) if isinstance(up[0].args[0], ast.JoinedStr) else []
-        want = [("lit", ">"), ("expr", "cls.length_format"), ("expr", "cls.header_type.length"), ("lit", "s"), ("expr", dl[0]), ("lit", "s"), ("expr", "cls.checksum_format")]
-        ok = parts == want
-        ctx.ob(rule, q, ok, "the frame is split with the same format the encoder uses" if ok else f"decode format {parts} differs from the encoder's", key="format", where=f.where)
-    # header from field 1, data from field 2, checksum field 3
-    fvar = next((s.targets[0].id for s in rules.func_stmts(f.node) if isinstance(s, ast.Assign) and s.value is up[0]), None)
-    ctx.require(fvar is not None, f"{q}: unpack result variable not found")
-    hd = [c for c in calls_in(f.node) if call_name(c) == "cls.header_type.decode"]
-    ok = len(hd) == 1 and norm(hd[0].args[0]) == f"{fvar}[1]"
-    ctx.ob(rule, q, ok, "the header is decoded from the header field" if ok else "the header is not decoded from field 1 of the frame", key="header-field", where=f.where)
-    ctor = [c for c in calls_in(f.node) if call_name(c) == "cls"]
-    ok = len(ctor) == 1 and len(ctor[0].args) == 2 and norm(ctor[0].args[1]) == f"{fvar}[2]"
-    ctx.ob(rule, q, ok, "the block carries the data field" if ok else "the block is not built from (header, field 2)", key="data-field", where=f.where)
-    # checksum gate
-    rets = [n for n in cfg.real_nodes() if isinstance(n.ast, ast.Return)]
-    none_rets = [r for r in rets if isinstance(r.ast.value, ast.Constant) and r.ast.value.value is None]
-    obj_rets = [r for r in rets if r not in none_rets]
-    tests = [n for n in cfg.nodes if n.kind == "test" and "checksum" in norm(n.ast)]
-    ok = len(tests) == 1 and norm(tests[0].ast) in (
-        f"cls.checksum_format != '' and obj.checksum != {fvar}[3]",
-        f"cls.checksum_format != '' and {fvar}[3] != obj.checksum",
-    )
-    if not ok and len(tests) >= 1:
-        ok = _checksum_gate_equivalent(f, tests, fvar, formats=("", "H") if with_checksum else ("",))
-    if not with_checksum:
-        ctx.ob(rule, q, ok, "a block type without a checksum field is never refused by the checksum gate" if ok else f"the checksum gate `{[norm(t.ast) for t in tests]}` can refuse a block type that has no checksum field", key="checksum-gate", where=f.where)
-        return
-    ctx.ob(rule, q, ok, "a block type with a checksum field compares the computed checksum with the transmitted one" if ok else
-           f"checksum gate is `{[norm(t.ast) for t in tests]}`: a block with a wrong checksum can be accepted", key="checksum-gate", where=f.where)
-    if tests:
-        T = tests[0]
-        bad = rules.branch_marker(T, "true")
-        good = rules.branch_marker(T, "false")
-        ok = all(cfg.dominates(bad, r) for r in none_rets) and bool(none_rets) and all(cfg.dominates(good, r) for r in obj_rets) and bool(obj_rets)
-        ctx.ob(rule, q, ok, "a mismatch returns None; the block object is returned only after the comparison passed" if ok else
-               "the decoded block can be returned without passing the checksum comparison (or a mismatch does not return None)", key="checksum-paths", where=f.where)
+    from . import _codec
+
+    f = ctx.repo.method("Block", "decode", inherited=False)
+    only = None if with_checksum else (lambda row: "[cls.checksum_format == ''" in row or ", cls.checksum_format == ''" in row)
+    _codec.agree(ctx, rule, f, REF_BLOCK["decode"], {
+        "returns": ("the frame is split with the encoder's format (data length = length field - header length), the header is decoded from field 1, the block carries field 2; "
+                    + ("a block type with a checksum field is returned only when the computed checksum equals the transmitted one, a mismatch gives None" if with_checksum else "a block type without a checksum field is never refused")),
+    }, key_prefix="unframe ", only_cases=only)
 
 
 def _checksum_gate_equivalent(f, tests, fvar, formats=("", "H")) -> bool:
@@ -154,30 +117,12 @@ def _checksum_gate_equivalent(f, tests, fvar, formats=("", "H")) -> bool:
 
 
 def check_checksum(ctx, rule):
-    repo = ctx.repo
-    f = repo.method("Block", "checksum", inherited=False)
-    ctx.touch(f)
-    q = f.qualname
-    cfg = cfg_of(f.node)
-    fors = [s for s in rules.func_stmts(f.node) if isinstance(s, ast.For)]
-    ctx.require(len(fors) == 1, f"{q}: accumulation loop not found")
-    loop = fors[0]
-    ok = norm(loop.iter) in ("self.header.encode() + self.data",)
-    ctx.ob(rule, q, ok, "the checksum covers every byte of the encoded header and of the data" if ok else f"the checksum iterates over `{norm(loop.iter)}`, not header.encode() + data: some bytes are not protected", key="covers", where=f.where)
-    body = [s for s in loop.body]
-    ok = len(body) == 1 and isinstance(body[0], ast.AugAssign) and isinstance(body[0].op, ast.Add) and isinstance(loop.target, ast.Name) and norm(body[0].value) == loop.target.id
-    ctx.ob(rule, q, ok, "each byte is added once (every single-byte alteration changes the sum)" if ok else f"accumulation step `{norm(body[0]) if body else ''}` is not `sum += byte`", key="accumulate", where=f.where)
-    acc = norm(body[0].target) if ok else None
-    inits = [s for s in rules.func_stmts(f.node) if isinstance(s, ast.Assign) and acc and any(norm(t) == acc for t in s.targets)]
-    ok2 = len(inits) == 1 and isinstance(inits[0].value, ast.Constant) and inits[0].value.value == 0
-    ctx.ob(rule, q, ok2, "the accumulator starts at 0" if ok2 else "the accumulator does not start at 0", key="init", where=f.where)
-    rets = [n for n in cfg.real_nodes() if isinstance(n.ast, ast.Return)]
-    final = [r for r in rets if acc and norm(r.ast.value) == acc]
-    ok3 = len(final) == 1 and not cfg.path_exists(cfg.entry, final[0], avoid=[n for n in cfg.nodes if n.kind == "iter"])
-    ctx.ob(rule, q, ok3, "the sum is returned after the loop" if ok3 else "the accumulated sum is not what is returned", key="returns-sum", where=f.where)
-    early = [r for r in rets if r not in final]
-    ok4 = all(any(norm(t) == "self.checksum_format == ''" and v for t, v in cfg.dominating_conditions(r)) for r in early)
-    ctx.ob(rule, q, ok4, "only block types without a checksum field skip the computation" if ok4 else "the checksum computation is skipped under another condition", key="skip", where=f.where)
+    from . import _codec
+
+    f = ctx.repo.method("Block", "checksum", inherited=False)
+    _codec.agree(ctx, rule, f, REF_BLOCK["checksum"], {
+        "returns": "the checksum is the sum of every byte of the encoded header and of the data (0 only for block types without a checksum field)",
+    }, key_prefix="checksum ")
 
 
 # ----------------------------------------------------------------------------------------------- header layouts
